@@ -334,9 +334,18 @@ Definition doc_namebl (s : rsession) (fs : fsys) : option dout :=
     localhost addresses; bit 3: ... only to private nets"; comment of fromdomain.c: 0/8 and 127/8, ::1 and :: count as
     localhost, the tables reserved_netsv4 / reserved_netsv6 plus link-local and site-local IPv6 as private).
     [in_net4b] / [in_net6b]: C16's "the address lies in the network". *)
+(** the private / reserved networks, written down here from RFC 1918 and the comments of fromdomain.c (10/8, 172.16/12,
+    192.168/16; link local 169.254/16; TEST-NET-1..3; benchmarking 192.18/15; ORCHID 2001:10::/28; documentation
+    2001:db8::/32) - the tables of the C source have to be these *)
+Definition DOC_NETS4 : list (bytes * N) :=
+  [([10; 0; 0; 0], 8); ([172; 16; 0; 0], 12); ([192; 168; 0; 0], 16); ([169; 254; 0; 0], 16); ([192; 0; 2; 0], 24);
+   ([198; 51; 100; 0], 24); ([203; 0; 113; 0], 24); ([192; 18; 0; 0], 15)]%N.
+Definition DOC_NETS6 : list (bytes * N) :=
+  [([32; 1; 0; 16; 0; 0; 0; 0; 0; 0; 0; 0; 0; 0; 0; 0], 28); ([32; 1; 13; 184; 0; 0; 0; 0; 0; 0; 0; 0; 0; 0; 0; 0], 32)]%N.
+
 Definition doc_private (a : bytes) : bool :=
-  if is_v4mapped a then existsb (fun nl => in_net4b a (fst nl) (snd nl)) FD_NETS4
-  else existsb (fun nl => in_net6b a (fst nl) (snd nl)) FD_NETS6 || is_linklocal a || is_sitelocal a.
+  if is_v4mapped a then existsb (fun nl => in_net4b a (fst nl) (snd nl)) DOC_NETS4
+  else existsb (fun nl => in_net6b a (fst nl) (snd nl)) DOC_NETS6 || is_linklocal a || is_sitelocal a.
 
 Definition doc_localhost (a : bytes) : bool :=
   if is_v4mapped a then N.eqb (nth 12 a 0%N) 0 || N.eqb (nth 12 a 0%N) 127
